@@ -292,6 +292,9 @@ func runFwd(sc Scenario, tr *Trace, seed int64) {
 		for _, h := range names(in["upstream"].([]any)) {
 			fmt.Fprintf(&reqb, "%s: up-%s\r\n", h, h)
 		}
+		for _, h := range names(list(st, "upempty")) { // present but empty: nothing was supplied
+			fmt.Fprintf(&reqb, "%s:\r\n", h)
+		}
 		if cn := names(in["conn"].([]any)); len(cn) > 0 {
 			if boolOr(st, "connlines", false) { // one Connection line per token
 				for _, n := range cn {
@@ -547,4 +550,103 @@ func runUpgradeStep(be *rawBackend, st M, tr *Trace) {
 		"seen": head != "", "events": evs, "hang": hang})
 }
 
-func init() { runners["fwd"] = runFwd }
+// stressFwd: ONE forwarder serving overlapping exchanges. Every request has its own body (one byte value repeated); in every
+// round one client stalls in the middle of a large response while short exchanges come and go, then reads on. Every client must
+// receive exactly the bytes its backend response consisted of.
+func stressFwd(cfg M, tr *Trace, seed int64) {
+	tr.Emit(M{"e": "Reset", "scn": "fwdconc", "cfg": M{}})
+	backend := httptest.NewServer(http.HandlerFunc(func(w http.ResponseWriter, r *http.Request) {
+		n, _ := strconv.Atoi(r.URL.Query().Get("n"))
+		c := r.URL.Query().Get("c")
+		w.Header().Set("X-Backend", c)
+		w.WriteHeader(200)
+		chunk := bytes.Repeat([]byte(c[:1]), 32*1024)
+		for left := n; left > 0; {
+			k := len(chunk)
+			if left < k {
+				k = left
+			}
+			if _, err := w.Write(chunk[:k]); err != nil {
+				return
+			}
+			left -= k
+		}
+	}))
+	defer backend.Close()
+	bu, _ := url.Parse(backend.URL)
+	f := forward.New(false)
+	front := httptest.NewServer(http.HandlerFunc(func(w http.ResponseWriter, req *http.Request) {
+		req.URL.Scheme, req.URL.Host = bu.Scheme, bu.Host
+		f.ServeHTTP(w, req)
+	}))
+	defer front.Close()
+	fetch := func(c string, n int, stall time.Duration) (ok bool) {
+		conn, err := net.Dial("tcp", front.Listener.Addr().String())
+		if err != nil {
+			return false
+		}
+		defer conn.Close()
+		conn.SetDeadline(time.Now().Add(20 * time.Second))
+		fmt.Fprintf(conn, "GET /x?c=%s&n=%d HTTP/1.1\r\nHost: front.example.com\r\nConnection: close\r\n\r\n", c, n)
+		br := bufio.NewReaderSize(conn, 4096)
+		resp, err := http.ReadResponse(br, nil)
+		if err != nil || resp.StatusCode != 200 || resp.Header.Get("X-Backend") != c {
+			return false
+		}
+		buf := make([]byte, 2048)
+		got, first := 0, true
+		for {
+			k, err := resp.Body.Read(buf)
+			for _, b := range buf[:k] {
+				if b != c[0] {
+					return false
+				}
+			}
+			got += k
+			if first && stall > 0 && got > 0 {
+				first = false
+				time.Sleep(stall) // the proxy's write towards this client blocks meanwhile
+			}
+			if err != nil {
+				break
+			}
+		}
+		return got == n
+	}
+	rounds := numOr(cfg, "rounds", 6)
+	good, total := 0, 0
+	for round := 0; round < rounds; round++ {
+		var wg sync.WaitGroup
+		var mu sync.Mutex
+		res := map[string]bool{}
+		run := func(c string, n int, stall time.Duration) {
+			defer wg.Done()
+			ok := fetch(c, n, stall)
+			mu.Lock()
+			res[c] = ok
+			mu.Unlock()
+		}
+		wg.Add(1)
+		go run("A", 8<<20, 400*time.Millisecond) // large and stalled
+		time.Sleep(60 * time.Millisecond)
+		for i, c := range []string{"B", "C", "D", "E", "F"} {
+			wg.Add(1)
+			go run(c, 64*1024+i, 0)
+			time.Sleep(25 * time.Millisecond)
+		}
+		wg.Wait()
+		for _, ok := range res {
+			total++
+			if ok {
+				good++
+			}
+		}
+	}
+	tr.Emit(M{"e": "Totals", "what": "overlapping exchanges through one forwarder whose client received exactly its backend's bytes",
+		"expect": total, "got": good, "clause": "C16.ResponseBodyRelayed"})
+}
+
+func init() {
+	runners["fwd"] = runFwd
+	stressors["fwd"] = stressFwd
+}
